@@ -338,6 +338,9 @@ NAME_SCHEMES = [
     [("foo", "x"), ("y", "foo"), ("x", "y")],
     # 2: collisions with bystanders and the working directory
     [("w", "keep"), ("k", "w"), ("foo", "other")],
+    # 3: legal names that LOOK special: two or more consecutive dots inside / at the start / at the end of a name, a name
+    # of dots only (but never exactly '.' or '..'), a dotted directory with a whole sub-tree below it
+    [("v1..v2", "a..b.bin"), ("..x", "..."), ("report..final.txt", "x..")],
 ]
 
 
@@ -417,7 +420,7 @@ def make_cases(ctx):
                 cases.append(
                     dict(
                         shape=shape,
-                        scheme=(k // 2) % 3 if not isinstance(shape, str) else 0,
+                        scheme=(k // 2) % len(NAME_SCHEMES) if not isinstance(shape, str) else 0,
                         dst=dst,
                         wi=wi,
                         cwd=cwd,
@@ -792,7 +795,7 @@ SEQ_OPS = [
 SEQ_OPS_MORE = [("cd", "x"), ("mkdir", "/w/x"), ("remove", "/x/foo"), ("upload", "/x", False)]
 SEQ_SOURCES = [
     {"d": {}, "e": {"f": {}}},              # directories only
-    {"a": b"A", "d": {"e": b""}},           # files on two levels, an empty file
+    {"a": b"A", "v1..v2": {"..e": b"", "...": b"D"}},  # files on two levels, an empty file, dotted (legal) names
     b"F",                                   # a single file
 ]
 
@@ -1067,8 +1070,8 @@ def witness_cases():
 def correspondence(ctx):
     ctx.extra["rule"] = (
         "bounded-exhaustive: every tree shape of depth <= 3 and fan-out <= 2 over leaves {empty file, file, empty dir} "
-        "(unordered sibling pairs in quick, ordered in thorough), named by three schemes that collide across levels and with the "
-        "source name, destination components, bystanders and cwd; shapes of depth <= 2 run under all 16 combinations of "
+        "(unordered sibling pairs in quick, ordered in thorough), named by four schemes: three that collide across levels and with the "
+        "source name, destination components, bystanders and cwd, one of legal names with consecutive dots ('v1..v2', '..x', '...', 'x..'); shapes of depth <= 2 run under all 16 combinations of "
         "destination {'', x, x/y, /x/y} x write_into x cwd {/, /w}, depth-3 shapes under 3 of them in rotation (all 16 in "
         "thorough); block size {1,4,8192}, MLSD vs LIST-fallback server, memory/disk backend on each side, fresh vs "
         "pre-existing older copy at the destination, relative vs absolute source, local cwd and local destination rotate with "
